@@ -41,6 +41,8 @@ SpecT(sw, x) ==
     [] sw[1] = "esc_pair"  -> ParseTuple(InStr(<<92, 117>> \o Hex4(sw[5], sw[4]) \o <<92, 117>> \o Hex4(x, ~sw[4])), MkOpts(sw[2], sw[3]), FALSE)
     \* every first escape x followed by a fixed second escape sw[5]
     [] sw[1] = "esc_pair2" -> ParseTuple(InStr(<<92, 117>> \o Hex4(x, sw[4]) \o <<92, 117>> \o Hex4(sw[5], sw[4])), MkOpts(sw[2], sw[3]), FALSE)
+    \* every character x in hex-digit position sw[2] (1..4) of a \uXXXX escape, the other digits being 0 / 4 / 1
+    [] sw[1] = "esc_hexchar" -> ParseTuple(InStr(<<92, 117>> \o [i \in 1..4 |-> IF i = sw[2] THEN x ELSE <<48, 48, 52, 49>>[i]]), Strict, FALSE)
     \* the arithmetic of surrogate pairs, all 1024 x 1024 combinations: x = (h - D800) * 1024 + (l - DC00)
     [] sw[1] = "combine"   -> <<"ok", 1, Combine(55296 + (x \div 1024), 56320 + (x % 1024)), -1>>
     \* compact printing of a one-character string / key
